@@ -222,4 +222,200 @@ Section LpaP.
       - pose proof (shortest_path_inv fuel s I) as X. destruct (shortest_path false hfun fuel s) as [[s1 c] p]. exact X. }
     apply H. apply init_inv. exact Hne.
   Qed.
+
+  (* ---- no inconsistent node outside the queue ---- *)
+  (* every node other than those in [ex] that has g <> rhs carries the queued flag *)
+  Definition CInv (ex : list nat) (s : lpa) : Prop :=
+    forall i n, find_node s i = Some n -> ~ In i ex -> ceq (n_g n) (n_r n) = false -> n_inq n = true.
+  Lemma CInv_weaken ex ex' s : (forall i, In i ex -> In i ex') -> CInv ex s -> CInv ex' s.
+  Proof. intros H C i n Hn Hi Hc. apply (C i n Hn); [intros X; apply Hi, H, X|exact Hc]. Qed.
+  Lemma get_node_cinv ex s i : BInv s -> CInv ex s -> CInv ex (fst (get_node s i)).
+  Proof.
+    intros I C. unfold LpaModel.get_node. destruct (find_node s i) as [n|] eqn:E; cbn [fst]; [exact C|].
+    intros j m Hm Hj Hc. unfold LpaModel.find_node in Hm. cbn [l_nodes] in Hm. rewrite find_app in Hm. fold (find_node s j) in Hm.
+    destruct (find_node s j) as [x|] eqn:Ej; [injection Hm as <-; apply (C j x Ej Hj Hc)|]. cbn [find new_node n_id] in Hm. destruct (i =? j)%nat; [injection Hm as <-; cbn in Hc; discriminate|discriminate].
+  Qed.
+  (* queue operations on node i do not touch g, rhs or the flag of any other node *)
+  Lemma insert_queue_find s i j : BInv s -> find_node (insert_queue s i) j =
+    match find_node s j with Some m => Some (if Nat.eqb j i then mkN (n_id m) (n_g m) (n_h m) (n_r m) (calc_key m) true (n_par m) else m) | None => None end.
+  Proof.
+    intros I. unfold LpaModel.insert_queue. destruct (find_node s i) as [n|] eqn:Hn.
+    - destruct (find_node_spec s i n Hn) as (_ & Ei).
+      change (LpaModel.find_node {| l_nodes := l_nodes (put_node s _); l_queue := _; l_adj := _; l_src := _; l_tgt := _ |} j) with (find_node (put_node s (mkN (n_id n) (n_g n) (n_h n) (n_r n) (calc_key n) true (n_par n))) j).
+      rewrite find_put. cbn [n_id]. subst i. destruct (Nat.eqb_spec j (n_id n)) as [->|N]; [rewrite Hn; reflexivity|destruct (find_node s j); reflexivity].
+    - destruct (find_node s j) as [m|] eqn:Ej; [|reflexivity]. destruct (Nat.eqb_spec j i) as [->|N]; [congruence|reflexivity].
+  Qed.
+  Lemma update_vertex_find s v j : BInv s -> j <> v -> find_node (update_vertex s v) j = find_node s j.
+  Proof.
+    intros I N. unfold LpaModel.update_vertex. destruct (find_node s v) as [n|] eqn:Hn; [|reflexivity].
+    destruct (negb (ceq (n_g n) (n_r n))).
+    - destruct (n_inq n).
+      + destruct (remove_queue_inv s v I) as (I' & F). rewrite (insert_queue_find _ v j I'), F. destruct (find_node s j); [|reflexivity]. destruct (Nat.eqb_spec j v); [congruence|reflexivity].
+      + rewrite (insert_queue_find _ v j I). destruct (find_node s j); [|reflexivity]. destruct (Nat.eqb_spec j v); [congruence|reflexivity].
+    - destruct (n_inq n); [|reflexivity]. destruct (remove_queue_inv s v I) as (_ & F). rewrite F. destruct (find_node s j); [|reflexivity]. destruct (Nat.eqb_spec j v); [congruence|reflexivity].
+  Qed.
+  Lemma update_vertex_self s v n : BInv s -> find_node s v = Some n -> exists n', find_node (update_vertex s v) v = Some n' /\ n_g n' = n_g n /\ n_r n' = n_r n /\ n_par n' = n_par n /\
+    (ceq (n_g n) (n_r n) = false -> n_inq n' = true).
+  Proof.
+    intros I Hn. unfold LpaModel.update_vertex. rewrite Hn. destruct (ceq (n_g n) (n_r n)) eqn:Ec; cbn [negb].
+    - destruct (n_inq n) eqn:Hf.
+      + destruct (remove_queue_inv s v I) as (_ & F). rewrite F, Hn, Nat.eqb_refl. eexists. split; [reflexivity|]. cbn. repeat split; auto; try discriminate.
+      + exists n. repeat split; auto; try discriminate.
+    - destruct (n_inq n) eqn:Hf.
+      + destruct (remove_queue_inv s v I) as (I' & F). rewrite (insert_queue_find _ v v I'), F, Hn, !Nat.eqb_refl. eexists. split; [reflexivity|]. cbn. auto.
+      + rewrite (insert_queue_find _ v v I), Hn, Nat.eqb_refl. eexists. split; [reflexivity|]. cbn. auto.
+  Qed.
+  (* updateVertex(v) restores the property at v and keeps it elsewhere *)
+  Lemma update_vertex_cinv ex s v : BInv s -> CInv (v :: ex) s -> CInv ex (update_vertex s v).
+  Proof.
+    intros I C j m Hm Hj Hc. destruct (Nat.eq_dec j v) as [->|N].
+    - destruct (find_node s v) as [n|] eqn:Hn.
+      + destruct (update_vertex_self s v n I Hn) as (n' & F & G1 & G2 & _ & G4). rewrite F in Hm. injection Hm as <-. apply G4. rewrite <- G1, <- G2. exact Hc.
+      + unfold LpaModel.update_vertex in Hm. rewrite Hn in Hm. congruence.
+    - rewrite (update_vertex_find s v j I N) in Hm. apply (C j m Hm); [intros [E|E]; [congruence|exact (Hj E)]|exact Hc].
+  Qed.
+  (* changing g / rhs / parent of node v only: the property may now fail at v alone *)
+  Lemma put_cinv ex s n m : BInv s -> CInv ex s -> find_node s (n_id n) = Some m -> CInv (n_id n :: ex) (put_node s n).
+  Proof.
+    intros I C Hm j x Hx Hj Hc. rewrite find_put in Hx. destruct (Nat.eqb_spec j (n_id n)) as [->|N]; [exfalso; apply Hj; left; reflexivity|].
+    apply (C j x Hx); [intros E; apply Hj; right; exact E|exact Hc].
+  Qed.
+
+  Definition WInv (s : lpa) : Prop := BInv s /\ CInv [] s.
+  Lemma put_keep_cinv ex s n m : CInv ex s -> find_node s (n_id n) = Some m -> (ceq (n_g n) (n_r n) = false -> n_inq n = true) -> CInv ex (put_node s n).
+  Proof.
+    intros C Hm Hk j x Hx Hj Hc. rewrite find_put in Hx. destruct (Nat.eqb_spec j (n_id n)) as [->|N]; [rewrite Hm in Hx; injection Hx as <-; apply Hk; exact Hc|apply (C j x Hx Hj Hc)].
+  Qed.
+  Lemma best_in_cinv ex : forall es s best bmin, BInv s -> CInv ex s -> CInv ex (fst (fst (best_in hfun s es best bmin))).
+  Proof.
+    induction es as [|[u c] t IH]; intros s best bmin I C; cbn [best_in]; [exact C|].
+    pose proof (get_node_cinv ex s u I C) as C1. destruct (get_node_inv s u I) as (I1 & _). destruct (get_node s u) as [s1 nu]. cbn [fst snd] in *.
+    destruct (clt (cadd (n_g nu) c) bmin); apply IH; assumption.
+  Qed.
+  Lemma choose_best_cinv ex s v : BInv s -> CInv ex s -> CInv (v :: ex) (choose_best s v).
+  Proof.
+    intros I C. unfold LpaModel.choose_best. pose proof (best_in_cinv ex (adj_of s v) s None None I C) as C1. destruct (best_in_inv (adj_of s v) s None None I) as (I1 & _).
+    destruct (best_in hfun s (adj_of s v) None None) as [[s1 best] bmin]. cbn [fst] in *.
+    destruct (find_node s1 v) as [n|] eqn:Hn; [|apply (CInv_weaken ex); [intros i H; right; exact H|exact C1]].
+    destruct (find_node_spec s1 v n Hn) as (_ & Ei). rewrite <- Ei at 1.
+    apply (put_cinv ex s1 (mkN (n_id n) (n_g n) (n_h n) bmin (n_k n) (n_inq n) best) n I1 C1). cbn [n_id]. rewrite Ei. exact Hn.
+  Qed.
+  Lemma insert_edge_winv s u v c : WInv s -> WInv (insert_edge false hfun s u v c).
+  Proof.
+    intros (I & C). split; [apply insert_edge_inv; exact I|]. unfold LpaModel.insert_edge.
+    pose proof (get_node_cinv [] s u I C) as C1. destruct (get_node_inv s u I) as (I1 & _). destruct (get_node s u) as [s1 nu]. cbn [fst snd] in *.
+    pose proof (get_node_cinv [] s1 v I1 C1) as C2. destruct (get_node_inv s1 v I1) as (I2 & F2 & _). destruct (get_node s1 v) as [s2 nv]. cbn [fst snd] in *.
+    destruct (clt (cadd (n_g nu) c) (n_r nv)); [|exact C2]. destruct (find_node_spec s2 v nv F2) as (_ & Ei).
+    set (nv' := mkN (n_id nv) (n_g nv) (n_h nv) (cadd (n_g nu) c) (n_k nv) (n_inq nv) (Some u)).
+    apply update_vertex_cinv; [apply (put_same_flag s2 nv' nv I2); [cbn [nv' n_id]; rewrite Ei; exact F2|reflexivity]|].
+    rewrite <- Ei. apply (put_cinv [] s2 nv' nv I2 C2). cbn [nv' n_id]. rewrite Ei. exact F2.
+  Qed.
+  Lemma remove_edge_winv s u v : WInv s -> WInv (remove_edge false hfun s u v).
+  Proof.
+    intros (I & C). split; [apply remove_edge_inv; exact I|]. unfold LpaModel.remove_edge.
+    pose proof (get_node_cinv [] s u I C) as C1. destruct (get_node_inv s u I) as (I1 & _). destruct (get_node s u) as [s1 nu]. cbn [fst snd] in *.
+    pose proof (get_node_cinv [] s1 v I1 C1) as C2. destruct (get_node_inv s1 v I1) as (I2 & _). destruct (get_node s1 v) as [s2 nv]. cbn [fst snd] in *.
+    assert (W : CInv [v] s2) by (apply (CInv_weaken []); [intros i []|exact C2]).
+    destruct (n_par nv) as [p|]; [destruct (Nat.eqb p u)|]; apply update_vertex_cinv; try assumption; [apply choose_best_inv; exact I2|apply choose_best_cinv; assumption].
+  Qed.
+  Lemma WInv_adj s adj : WInv s -> WInv (mkLpa (l_nodes s) (l_queue s) adj (l_src s) (l_tgt s)).
+  Proof. intros H. exact H. Qed.
+  Lemma op_insert_winv s u v c : WInv s -> WInv (op_insert false hfun s u v c).
+  Proof. intros W. unfold op_insert. apply insert_edge_winv, insert_edge_winv, WInv_adj, W. Qed.
+  Lemma op_remove_winv s u v : WInv s -> WInv (op_remove false hfun s u v).
+  Proof. intros W. unfold op_remove. destruct (has_edge s u v); [|exact W]. apply remove_edge_winv, remove_edge_winv, WInv_adj, W. Qed.
+  Lemma fold_winv {A} (f : lpa -> A -> lpa) : (forall s a, WInv s -> WInv (f s a)) -> forall l s, WInv s -> WInv (fold_left f l s).
+  Proof. intros H. induction l as [|a t IH]; intros s W; [exact W|]. cbn [fold_left]. apply IH, H, W. Qed.
+  Lemma over_step_winv s u : WInv s -> find_node s (n_id u) = Some u -> n_inq u = true -> hd_error (l_queue s) = Some (n_id u) -> WInv (over_step false hfun s u).
+  Proof.
+    intros (I & C) Hu Hf Hq. split; [apply over_step_inv; assumption|].
+    pose proof I as (A & B & Cq). unfold over_step.
+    set (u' := mkN (n_id u) (n_r u) (n_h u) (n_r u) (n_k u) false (n_par u)).
+    set (s2 := mkLpa (l_nodes (put_node s u')) (tl (l_queue (put_node s u'))) (l_adj (put_node s u')) (l_src (put_node s u')) (l_tgt (put_node s u'))).
+    assert (I2 : BInv s2).
+    { destruct (l_queue s) as [|q0 qt] eqn:Eq; [discriminate|]. cbn [hd_error] in Hq. injection Hq as ->. inversion B as [|? ? Hn0 Bt]; subst.
+      split; [cbn [l_nodes s2]; change (NoDup (ids (put_node s u'))); rewrite ids_put; exact A|]. split; [cbn [l_queue put_node tl s2]; rewrite Eq; exact Bt|].
+      intros j. cbn [l_queue put_node s2]. rewrite Eq. cbn [tl]. change (LpaModel.find_node s2 j) with (find_node (put_node s u') j).
+      rewrite find_put. cbn [u' n_id]. destruct (Nat.eqb_spec j (n_id u)) as [->|N].
+      - rewrite Hu. split; [intros H; contradiction|intros (x & X & Y); injection X as <-; discriminate].
+      - specialize (Cq j). cbn [In] in Cq. rewrite <- Cq. split; [intros H; right; exact H|intros [H|H]; [congruence|exact H]]. }
+    assert (C2 : CInv [] s2).
+    { intros j x Hx Hj Hc. change (LpaModel.find_node s2 j) with (find_node (put_node s u') j) in Hx. revert Hx Hj Hc. apply (put_keep_cinv [] s u' u C Hu).
+      cbn [u' n_g n_r]. intros Hc'. destruct (n_r u) as [z|]; cbn in Hc'; [rewrite Z.eqb_refl in Hc'; discriminate|discriminate]. }
+    assert (W2 : WInv s2) by (split; assumption).
+    change (CInv [] (fold_left (fun st e => let '(st1, nv) := get_node st (fst e) in
+              if clt (cadd (n_r u) (snd e)) (n_r nv) then LpaModel.update_vertex false (put_node st1 (mkN (n_id nv) (n_g nv) (n_h nv) (cadd (n_r u) (snd e)) (n_k nv) (n_inq nv) (Some (n_id u)))) (fst e) else st1) (adj_of s2 (n_id u)) s2)).
+    apply fold_winv; [|exact W2]. clear - hfun. intros st e (Ist & Cst). 
+    pose proof (get_node_cinv [] st (fst e) Ist Cst) as C3. destruct (get_node_inv st (fst e) Ist) as (I3 & F3 & _). destruct (get_node st (fst e)) as [st1 nv]. cbn [fst snd] in *.
+    destruct (clt (cadd (n_r u) (snd e)) (n_r nv)); [|split; assumption]. destruct (find_node_spec st1 (fst e) nv F3) as (_ & Ei).
+    set (nv' := mkN (n_id nv) (n_g nv) (n_h nv) (cadd (n_r u) (snd e)) (n_k nv) (n_inq nv) (Some (n_id u))).
+    assert (Ip : BInv (put_node st1 nv')) by (apply (put_same_flag st1 nv' nv I3); [cbn [nv' n_id]; rewrite Ei; exact F3|reflexivity]).
+    split; [apply update_vertex_inv; exact Ip|]. apply update_vertex_cinv; [exact Ip|]. rewrite <- Ei. apply (put_cinv [] st1 nv' nv I3 C3). cbn [nv' n_id]. rewrite Ei. exact F3.
+  Qed.
+
+  Lemma under_step_winv s u : WInv s -> find_node s (n_id u) = Some u -> WInv (under_step false hfun s u).
+  Proof.
+    intros (I & C) Hu. split; [apply under_step_inv; assumption|]. unfold under_step.
+    set (u' := mkN (n_id u) None (n_h u) (n_r u) (n_k u) (n_inq u) (n_par u)).
+    assert (Ip : BInv (put_node s u')) by (apply (put_same_flag s u' u I); [exact Hu|reflexivity]).
+    assert (W1 : WInv (LpaModel.update_vertex false (put_node s u') (n_id u))).
+    { split; [apply update_vertex_inv; exact Ip|]. apply update_vertex_cinv; [exact Ip|]. apply (put_cinv [] s u' u I C Hu). }
+    change (CInv [] (fold_left (fun st e => let '(st1, nv) := get_node st (fst e) in
+              if Nat.eqb (fst e) (l_src st1) || negb (match n_par nv with Some p => Nat.eqb p (n_id u) | None => false end) then st1
+              else LpaModel.update_vertex false (choose_best st1 (fst e)) (fst e)) (adj_of (LpaModel.update_vertex false (put_node s u') (n_id u)) (n_id u)) (LpaModel.update_vertex false (put_node s u') (n_id u)))).
+    apply fold_winv; [|exact W1]. clear - hfun. intros st e (Ist & Cst).
+    pose proof (get_node_cinv [] st (fst e) Ist Cst) as C3. destruct (get_node_inv st (fst e) Ist) as (I3 & _). destruct (get_node st (fst e)) as [st1 nv]. cbn [fst snd] in *.
+    destruct ((fst e =? l_src st1)%nat || negb match n_par nv with Some p => (p =? n_id u)%nat | None => false end); [split; assumption|].
+    split; [apply update_vertex_inv, choose_best_inv; exact I3|]. apply update_vertex_cinv; [apply choose_best_inv; exact I3|apply choose_best_cinv; assumption].
+  Qed.
+  Lemma search_winv : forall fuel s, WInv s -> WInv (fst (search false hfun fuel s)).
+  Proof.
+    induction fuel as [|f IH]; intros s W; cbn [search]; [exact W|]. pose proof W as (I & C).
+    destruct (l_queue s) as [|top qt] eqn:Eq; [exact W|]. destruct (find_node s (l_tgt s)) as [t|] eqn:Et; [|exact W]. destruct (find_node s top) as [u|] eqn:Eu; [|exact W].
+    set (t' := mkN (n_id t) (n_g t) (n_h t) (n_r t) (calc_key t) (n_inq t) (n_par t)).
+    destruct (find_node_spec s _ t Et) as (_ & Eit). destruct (find_node_spec s _ u Eu) as (_ & Eiu).
+    assert (Ht' : find_node s (n_id t') = Some t) by (cbn [t' n_id]; rewrite Eit; exact Et).
+    assert (I0 : BInv (put_node s t')) by (apply (put_same_flag s t' t I Ht'); reflexivity).
+    assert (C0 : CInv [] (put_node s t')).
+    { apply (put_keep_cinv [] s t' t C Ht'). cbn [t' n_g n_r n_inq]. intros Hc. apply (C _ t Et); [intros []|exact Hc]. }
+    assert (W0 : WInv (put_node s t')) by (split; assumption).
+    set (u0 := if (top =? l_tgt s)%nat then t' else u).
+    destruct (klt (n_k u0) (n_k t') || negb (ceq (n_r t') (n_g t'))); [|exact W0]. apply IH.
+    pose proof I as (A & B & Cq).
+    assert (Hin : exists n, find_node s top = Some n /\ n_inq n = true) by (apply Cq; rewrite Eq; left; reflexivity). destruct Hin as (n & Hn & Hf). rewrite Eu in Hn. injection Hn as <-.
+    assert (Eid : n_id u0 = top) by (unfold u0; destruct (Nat.eqb_spec top (l_tgt s)) as [E|N]; [cbn [t' n_id]; congruence|exact Eiu]).
+    assert (F0 : find_node (put_node s t') (n_id u0) = Some u0).
+    { rewrite find_put, Eid. cbn [t' n_id]. rewrite Eit. unfold u0. destruct (Nat.eqb_spec top (l_tgt s)) as [E|N]; [rewrite E, Et; reflexivity|exact Eu]. }
+    assert (Hf0 : n_inq u0 = true).
+    { unfold u0. destruct (Nat.eqb_spec top (l_tgt s)) as [E|N]; [|exact Hf]. cbn [t' n_inq]. rewrite E in Eu. rewrite Et in Eu. injection Eu as ->. exact Hf. }
+    destruct (clt (n_r u0) (n_g u0)).
+    - apply over_step_winv; [exact W0|exact F0|exact Hf0|]. cbn [put_node l_queue]. rewrite Eq, Eid. reflexivity.
+    - apply under_step_winv; [exact W0|exact F0].
+  Qed.
+  Lemma shortest_path_winv fuel s : WInv s -> WInv (fst (fst (shortest_path false hfun fuel s))).
+  Proof.
+    intros W. unfold shortest_path. destruct (l_queue s) eqn:Eq; [exact W|]. pose proof (search_winv fuel s W) as W1. destruct (search false hfun fuel s) as [s1 fin]. cbn [fst] in W1.
+    destruct (negb fin); [exact W1|]. destruct (find_node s1 (l_tgt s1)); exact W1.
+  Qed.
+  Lemma init_winv src tgt : src <> tgt -> WInv (lpa_init hfun src tgt).
+  Proof.
+    intros Hne. split; [apply init_inv; exact Hne|]. intros j x Hx _ Hc. unfold lpa_init in Hx. rewrite insert_queue_find in Hx.
+    - unfold LpaModel.find_node in Hx. cbn [l_nodes find n_id] in Hx. destruct (Nat.eqb_spec src j) as [->|N1].
+      + rewrite Nat.eqb_refl in Hx. injection Hx as <-. reflexivity.
+      + destruct (Nat.eqb_spec tgt j) as [->|N2]; [|discriminate]. destruct (Nat.eqb_spec j src); [congruence|]. injection Hx as <-. cbn in Hc. discriminate.
+    - split; [cbn; constructor; [intros [H|[]]; congruence|constructor; [intros []|constructor]]|]. split; [constructor|].
+      intros i. cbn [l_queue]. split; [intros []|]. intros (n & Hn & Hf). unfold LpaModel.find_node in Hn. cbn [l_nodes find n_id] in Hn.
+      destruct (src =? i)%nat; [injection Hn as <-; discriminate|]. destruct (tgt =? i)%nat; [injection Hn as <-; discriminate|discriminate].
+  Qed.
+  (* every history of operations: flags and queue agree, and no inconsistent node is outside the queue *)
+  Theorem lpa_history_winv src tgt fuel : src <> tgt -> forall ops,
+    WInv (fold_left (fun s o => fst (lpa_step false hfun fuel s o)) ops (lpa_init hfun src tgt)).
+  Proof.
+    intros Hne ops. assert (H : forall ops s, WInv s -> WInv (fold_left (fun s o => fst (lpa_step false hfun fuel s o)) ops s)).
+    { induction ops0 as [|o t IH]; intros s W; [exact W|]. cbn [fold_left]. apply IH. destruct o as [u v c|u v|]; cbn [lpa_step fst].
+      - apply op_insert_winv; exact W.
+      - apply op_remove_winv; exact W.
+      - pose proof (shortest_path_winv fuel s W) as X. destruct (shortest_path false hfun fuel s) as [[s1 c] p]. exact X. }
+    apply H. apply init_winv. exact Hne.
+  Qed.
 End LpaP.
